@@ -7,7 +7,9 @@ confs, edges = model.bfs(prog, [('start',)] + steps, max_depth=5)
 confs = [c for c in confs if c[0].started]
 print(len(confs), 'configurations', edges, 'edges')
 cpp = emit.emit_cpp(prog)
-h, index = emit.emit_harness(prog, confs, steps, 'DEV')
+import os
+proj = tuple(os.environ.get('PROJ', ''.join(emit.KINDS_ALL)))
+h, index = emit.emit_harness(prog, confs, steps, 'DEV', proj=proj, check_flags=bool(prog.flags))
 u = runner.Unit(name, be, cpp, h, index); u.nevents = len(prog.events)
 print(u.dir)
 u.build_real()
@@ -21,7 +23,7 @@ for hi in range(len(index)):
         for t in range(40):
             g = rnd.getrandbits(ns)
             rc, out = u.run_native(u.exe_real, hi, [0, kind, 7, g])
-            if rc != 0:
+            if rc not in (0, 77):
                 bad += 1
                 if bad < 4:
                     rc, out = u.run_native(u.exe_real, hi, [0, kind, 7, g], True)
